@@ -14,6 +14,16 @@ fn mk_table(col: u8, bits: u8) -> IndexTable {
 	}
 }
 
+fn ok<T>(r: Result<T>) -> Option<T> {
+	match r {
+		Ok(v) => Some(v),
+		Err(e) => {
+			std::mem::forget(e);
+			None
+		},
+	}
+}
+
 fn any_bits() -> u8 {
 	let b: u8 = kani::any();
 	kani::assume(b >= 16 && b <= 49);
@@ -418,12 +428,12 @@ fn u3_insert_body(mode: u8) {
 	} else {
 		None
 	};
-	let r = t.plan_insert_chunk(k, Address::from_u64(addr), chunk, sub, &mut w);
+	let r = ok(t.plan_insert_chunk(k, Address::from_u64(addr), chunk, sub, &mut w));
 	let n = unsafe { REC_N };
 	let j: usize = kani::any();
 	kani::assume(j < 64);
 	match r {
-		Ok(PlanOutcome::NeedReindex) => {
+		Some(PlanOutcome::NeedReindex) => {
 			assert!(n == 0, "U3.insert.need_reindex_writes_nothing");
 			if addr <= Entry::last_address(b) {
 				assert!(mode == 0, "U3.insert.replace_never_needs_reindex_unless_overflow");
@@ -432,7 +442,7 @@ fn u3_insert_body(mode: u8) {
 			kani::cover!(addr > Entry::last_address(b), "address overflow");
 			kani::cover!(addr <= Entry::last_address(b), "page full");
 		},
-		Ok(PlanOutcome::Written) => {
+		Some(PlanOutcome::Written) => {
 			assert!(addr <= Entry::last_address(b), "U3.insert.address_overflow_never_written");
 			assert!(n == 1, "U3.insert.exactly_one_log_record");
 			let (rt, ri, rs, rc) = unsafe { (REC_TABLE, REC_INDEX, REC_SUB as usize, Chunk(REC_CHUNK)) };
@@ -474,14 +484,14 @@ fn u3_remove_body() {
 	let overlays = RwLock::new(crate::log::LogOverlays::with_columns(0));
 	let mut w = LogWriter::new(&overlays, 7);
 	rec_reset();
-	let r = t.plan_remove_chunk(k, chunk, i, &mut w);
+	let r = ok(t.plan_remove_chunk(k, chunk, i, &mut w));
 	let n = unsafe { REC_N };
 	let wi = word(&old, i);
 	let should = wi != 0 && Entry::from_u64(wi).partial_key(b) == Entry::extract_key(k, b);
 	let j: usize = kani::any();
 	kani::assume(j < 64);
 	match r {
-		Ok(PlanOutcome::Written) => {
+		Some(PlanOutcome::Written) => {
 			assert!(should, "U3.remove.only_matching_live_slot_removed");
 			assert!(n == 1, "U3.remove.exactly_one_log_record");
 			let (rt, ri, rs, rc) = unsafe { (REC_TABLE, REC_INDEX, REC_SUB as usize, Chunk(REC_CHUNK)) };
@@ -491,7 +501,7 @@ fn u3_remove_body() {
 				assert!(word(&rc, j) == word(&old, j), "U3.remove.frame_other_slots_unchanged");
 			}
 		},
-		Ok(PlanOutcome::Skipped) => {
+		Some(PlanOutcome::Skipped) => {
 			assert!(!should, "U3.remove.matching_slot_not_skipped");
 			assert!(n == 0, "U3.remove.skip_writes_nothing");
 		},
@@ -511,6 +521,66 @@ logwriter_harness!(canary_u3, {
 	let overlays = RwLock::new(crate::log::LogOverlays::with_columns(0));
 	let mut w = LogWriter::new(&overlays, 7);
 	rec_reset();
-	let r = t.plan_insert_chunk(k, Address::from_u64(addr), chunk, None, &mut w);
+	let r = ok(t.plan_insert_chunk(k, Address::from_u64(addr), chunk, None, &mut w));
 	assert!(unsafe { REC_N } == 0, "CANARY");
 });
+
+// ================================================================== U9 (index table): log-record validation
+macro_rules! reader_harness {
+	($(#[$m:meta])* $name:ident, $body:expr) => {
+		#[kani::proof]
+		$(#[$m])*
+		#[kani::stub(crate::log::LogReader::read, crate::log::verif_log::stub_read)]
+		#[kani::stub(crc32fast::Hasher::new, crate::verif_stubs::crc_hasher_new)]
+		#[kani::stub(parking_lot::RawRwLock::lock_shared_slow, crate::verif_stubs::lock_shared_slow)]
+		#[kani::stub(parking_lot::RawRwLock::unlock_shared_slow, crate::verif_stubs::unlock_shared_slow)]
+		#[kani::stub(parking_lot::RawRwLock::lock_exclusive_slow, crate::verif_stubs::lock_exclusive_slow)]
+		#[kani::stub(parking_lot::RawRwLock::unlock_exclusive_slow, crate::verif_stubs::unlock_exclusive_slow)]
+		#[kani::stub(std::fmt::format, crate::verif_stubs::fmt_format)]
+		fn $name() {
+			$body
+		}
+	};
+}
+// popcount class `k` concrete (bit positions symbolic): the mask walk runs exactly k times
+fn u9_index_body(k: u32) {
+	use crate::log::verif_log as vl;
+	let mask: u64 = kani::any();
+	kani::assume(mask.count_ones() == k);
+	let fail_at: usize = kani::any();
+	vl::reader_reset(mask.to_le_bytes(), fail_at);
+	let b = any_bits();
+	let t = mk_table(1, b);
+	let index: u64 = kani::any();
+	let mut r = vl::mk_reader();
+	let v = ok(t.validate_plan(index, &mut r));
+	let (calls, bytes, maxlen) = vl::reader_stats();
+	if v.is_some() {
+		// the chunk named by an accepted record lies inside the index file (what enact_plan writes: 512 bytes at 16384 + 512*index)
+		assert!(index < (1u64 << b as u32), "U9.index.validated_chunk_in_file");
+		assert!(16384 + 512 * index + 512 <= file_size(b), "U9.index.validated_write_inside_mapping");
+		assert!(calls == 1 + k as usize && bytes == 8 + 8 * k as u64, "U9.index.consumes_mask_plus_one_entry_per_set_bit");
+		assert!(calls <= fail_at, "U9.index.ok_only_if_every_read_succeeded");
+	} else {
+		assert!(index >= (1u64 << b as u32) || fail_at <= k as usize, "U9.index.rejects_only_bad_chunk_or_short_record");
+	}
+	assert!(maxlen <= 8, "U9.index.reads_are_entry_sized");
+	// skipping a record (other column / stale table) consumes the same bytes
+	vl::reader_reset(mask.to_le_bytes(), usize::MAX);
+	let s = ok(IndexTable::skip_plan(&mut r));
+	let (calls2, bytes2, _m) = vl::reader_stats();
+	assert!(s.is_some() && calls2 == 1 + k as usize && bytes2 == 8 + 8 * k as u64, "U9.index.skip_consumes_the_same_bytes");
+	kani::cover!(v.is_some(), "record accepted");
+	kani::cover!(v.is_none() && index < (1u64 << b as u32), "short record rejected");
+	std::mem::forget(r);
+}
+reader_harness!(#[kani::unwind(3)] canary_u9_index, {
+	use crate::log::verif_log as vl;
+	vl::reader_reset([0u8; 8], usize::MAX);
+	let t = mk_table(1, any_bits());
+	let mut r = vl::mk_reader();
+	let v = ok(t.validate_plan(kani::any(), &mut r));
+	assert!(v.is_none(), "CANARY");
+	std::mem::forget(r);
+});
+/*@@GENERATED:index2@@*/
